@@ -950,7 +950,7 @@ def coerce_ptr(v): return NULL if (isinstance(v, int) and v == 0) else v
 
 
 # ---------------------------------------------------------------------------------------------
-def explore(module, models, body, max_paths=20000, parsed=None, fpmode='real', timeout=None, on_call=None):
+def explore(module, models, body, max_paths=20000, parsed=None, fpmode='real', timeout=None, on_call=None, partial=False):
     """Run body(it) once per feasible path (fork by re-execution along decision prefixes).
     body returns a result object; a path that ends in PathEnd (infeasible) is dropped.
     Returns (results, stats).  results = [(it, result)]."""
@@ -970,8 +970,12 @@ def explore(module, models, body, max_paths=20000, parsed=None, fpmode='real', t
             e.pc = list(it.pc); raise
         pending.extend(it.pending); n += 1; ic += it.icount
         used |= it.models_used; run |= it.funcs_run
-        if n > max_paths: raise Unsupported('path budget %d exceeded' % max_paths)
-        if timeout and time.time() - t0 > timeout: raise Unsupported('exploration timeout %ds' % timeout)
+        if n > max_paths or (timeout and time.time() - t0 > timeout):
+            why = 'path budget %d exceeded' % max_paths if n > max_paths else 'exploration timeout %ds' % timeout
+            # partial=True: hand back the paths explored so far (each is a real path of the code; a failure found on one of
+            # them is a failure), flagged as truncated so that the caller never reports the exploration as complete
+            if partial: return results, {'paths': n, 'feasible': len(results), 'instructions': ic, 'time_s': round(time.time() - t0, 2), 'models_used': used, 'funcs_run': run, 'truncated': why}
+            raise Unsupported(why)
     return results, {'paths': n, 'feasible': len(results), 'instructions': ic, 'time_s': round(time.time() - t0, 2), 'models_used': used, 'funcs_run': run}
 
 def alloc_doubles(it, name, vals):
